@@ -113,6 +113,8 @@ class Path:
         p.visits = dict(self.visits)
         if hasattr(self, 'entry'):
             p.entry = self.entry
+        if hasattr(self, 'entry_assume'):
+            p.entry_assume = list(self.entry_assume)
         return p
 
     def fresh(self, what):
@@ -269,6 +271,8 @@ class SymExec:
                 v_ = self.promoted_value(p.frames[-1][0], int(m_.group(1)))
                 if v_ is not None:
                     return v_
+                if op.get('uneval'):
+                    return ('item', op['uneval'], int(m_.group(1)))      # a model that wants its value asks promoted_value(.., lits=True)
             if op.get('uneval'):
                 return ('item', op['uneval'])
             if op.get('fn'):
@@ -276,7 +280,7 @@ class SymExec:
             return ('const', op['text'])
         raise Unsupported(op['k'])
 
-    def promoted_value(self, fn, i):
+    def promoted_value(self, fn, i, lits=False):
         """value of a promoted constant of `fn` that the compiler did not evaluate (generic bodies): its straight-line body — integer
         constants, references, Option::Some / None — is read; anything else is left alone"""
         pb = self.bodies.get(f'{fn}::promoted[{i}]')
@@ -291,6 +295,8 @@ class SymExec:
             if rv['k'] == 'use' and rv['op']['k'] == 'const':
                 o = rv['op']
                 v = Aff({}, o['val']) if o.get('val') is not None else None      # integers only: byte-string constants keep their symbolic form (the models name them)
+                if v is None and lits and o.get('bytes') is not None:
+                    v = ('lit', bytes(o['bytes']))
             elif rv['k'] == 'use' and rv['op']['k'] in ('copy', 'move') and not rv['op']['place']['proj']:
                 v = env.get(rv['op']['place']['local'])
             elif rv['k'] == 'ref':
